@@ -41,6 +41,7 @@ package ggql
 //@   requires recv != nil
 
 //@ func (*Root).validateDirUses
+//@   check accumulate {C13}
 //@   props C03
 //@   check panic {C03}
 //@   requires recv != nil
@@ -100,6 +101,7 @@ package ggql
 //@   requires w != nil
 
 //@ func (*Fragment).Validate
+//@   check accumulate {C10}
 //@   props C03
 //@   check panic {C03}
 //@   requires recv != nil
@@ -118,6 +120,7 @@ package ggql
 //@   requires a != nil
 
 //@ func (*Field).Validate
+//@   check accumulate {C10}
 //@   props C03
 //@   check panic {C03}
 //@   requires recv != nil
@@ -196,10 +199,13 @@ package ggql
 //@   requires recv != nil
 
 //@ func (*Root).getFieldType
-//@   props C03
+//@   props C03 C19
 //@   check panic {C03}
 //@   requires recv != nil
-//@   requires t != nil && ptrval(t) != 0
+//@   requires t != nil ==> ptrval(t) != 0
+//@   ensures[declared]{C19} fdOf(t, name) != nil ==> ft == fdOf(t, name).Type
+//@   ensures[none]{C19} fdOf(t, name) == nil ==> ft == nil
+//@   assigns nothing
 
 //@ func (*ArgValue).Write
 //@   props C03
@@ -242,13 +248,8 @@ package ggql
 //@   check panic {C03}
 //@   requires recv != nil
 
-//@ func (*Subscription).prep
-//@   props C03
-//@   check panic {C03}
-//@   requires recv != nil
-//@   requires root != nil
-
 //@ func (*VarDef).Validate
+//@   check accumulate {C10}
 //@   props C03
 //@   check panic {C03}
 //@   requires recv != nil
@@ -297,6 +298,7 @@ package ggql
 //@   requires args != nil
 
 //@ func (*Executable).Validate
+//@   check accumulate {C10}
 //@   props C03
 //@   check panic {C03}
 //@   requires recv != nil
@@ -308,6 +310,7 @@ package ggql
 //@   requires recv != nil
 
 //@ func (*Inline).Validate
+//@   check accumulate {C10}
 //@   props C03
 //@   check panic {C03}
 //@   requires recv != nil
@@ -333,6 +336,7 @@ package ggql
 //@   requires x != nil && ptrval(x) != 0
 
 //@ func (*FragRef).Validate
+//@   check accumulate {C10}
 //@   props C03
 //@   check panic {C03}
 //@   requires recv != nil
@@ -346,6 +350,7 @@ package ggql
 //@   requires depth >= 0
 
 //@ func (*Op).Validate
+//@   check accumulate {C10}
 //@   props C03
 //@   check panic {C03}
 //@   requires recv != nil
